@@ -35,6 +35,8 @@ type Gen struct {
 	pureDecls []pureDef // forward declarations of the recursive ones
 	pureDone map[string]bool
 	axioms   []string
+	axiomKey  map[string]string // axiom text -> symbol that must be mentioned for the axiom to be emitted
+	axiomNote map[string]string // axiom text -> assumption reported by the functions whose VCs get it
 	Verbose  bool
 	epochs   map[int]bool
 	constMaps map[*ssa.Global][]constMapEntry
